@@ -180,6 +180,16 @@ def sc_assembly(V, P, cfg, chk=None):
         bcdiag = _maxentry(Ke, V.symbolic)
     Kref = ref_scatter(M, ndof, x, Ke, bc, bcdiag, const, V.symbolic)
     chk.arrays_eq("scatter", K, Kref, "scatter")
+    if cfg.get("again"):
+        # history on one module: the same assembly module evaluated for another design (iteration 2 of any optimisation)
+        K1 = np.array(K, dtype=K.dtype)
+        x2 = V.reals("xb", len(x))
+        sig.state = x2
+        m.response()
+        K2 = dense(m.sig_out[0].state)
+        chk.arrays_eq("second-design:scatter", K2, ref_scatter(M, ndof, x2, Ke, bc, bcdiag, const, V.symbolic), "scatter")
+        chk.arrays_eq("first-result-unchanged-by-second-evaluation", K1, Kref, "scatter")
+        obs["K2"] = K2
 
     # ---- clause 2: symmetry
     if which != "general" or (cfg.get("symmetric_elmat") and const is None):
@@ -360,6 +370,8 @@ def items(tier):
         add("general-%s-ndof1-const-csr" % tag, which="general", mesh=mesh, ndof=1, add_constant=True, csr=True)
         add("general-%s-ndof2-symelmat" % tag, which="general", mesh=mesh, ndof=2, symmetric_elmat=True,
             csr=True)
+        add("general-%s-ndof1-bc1-again" % tag, which="general", mesh=mesh, ndof=1, bc=_bcsets(M, 1)["one"], again=True)
+        add("general-%s-ndof2-const-again" % tag, which="general", mesh=mesh, ndof=2, add_constant=True, again=True)
         add("general-%s-ndof1-elmat-transposed-view" % tag, which="general", mesh=mesh, ndof=1, elmat_layout="transposed-view")
         add("general-%s-ndof2-elmat-transposed-view-bc1" % tag, which="general", mesh=mesh, ndof=2, bc=_bcsets(M, 2)["one"],
             elmat_layout="transposed-view")
